@@ -292,8 +292,8 @@ impl HeaderMetadataSpec {
                         success_order,
                         failure_order,
                     )
-                    .map(|x| FromPrimitive::from_u8(x).unwrap())
-                    .map_err(|x| FromPrimitive::from_u8(x).unwrap())
+                    .map(|x| FromPrimitive::from_u8(self.get_bits_from_u8(x)).unwrap())
+                    .map_err(|x| FromPrimitive::from_u8(self.get_bits_from_u8(x)).unwrap())
             }
         } else {
             let addr = self.meta_addr(header);
